@@ -1674,6 +1674,25 @@ def compile_template(
     return template
 
 
+def _lines_inside_string_literals(code: str) -> Set[int]:
+    """Zero-based numbers of the lines of code that begin inside a string literal."""
+    linenos = set()
+    fstring_starts = []
+    try:
+        for token in tokenize.generate_tokens(io.StringIO(code, newline="").readline):
+            token_name = tokenize.tok_name[token.type]
+            if token_name == "FSTRING_START":
+                fstring_starts.append(token.start[0])
+            elif token_name == "FSTRING_END" and fstring_starts:
+                linenos.update(range(fstring_starts.pop(), token.end[0]))
+            elif token_name == "STRING":
+                linenos.update(range(token.start[0], token.end[0]))
+    except (tokenize.TokenError, SyntaxError):
+        pass  # code is not necessarily valid python syntax in all cases
+
+    return linenos
+
+
 def format_template(source: str, template_match: NamedTuple, **callables) -> str:
     template_match_asdict = template_match._asdict() if hasattr(template_match, "_asdict") else {}
     unfilled_wildcards = []
@@ -1688,7 +1707,13 @@ def format_template(source: str, template_match: NamedTuple, **callables) -> str
             line_start = slot.string.rfind("\n", 0, slot.start()) + 1
             indentation = slot.string[line_start : slot.start()]
             if "\n" in filled and indentation and not indentation.strip():
-                filled = filled.replace("\n", "\n" + indentation)
+                # Lines that begin inside a string literal (a multi-line docstring of the bound
+                # def / class) are content, not code: they stay as they are.
+                string_literal_lines = _lines_inside_string_literals(filled)
+                filled = "\n".join(
+                    line if i == 0 or i in string_literal_lines else indentation + line
+                    for i, line in enumerate(filled.split("\n"))
+                )
             return filled
         unfilled_wildcards.append(slot.group())
         return slot.group()
